@@ -1,10 +1,13 @@
-(* C06 specification, from the property statement only.
+(* C06 specification, from the property statement.
    "a caption starts at the instant its End-Of-Caption code is transmitted - the line's timecode plus one frame per
     preceding code word, non-drop-frame timecode running 1001/1000 slower than drop-frame, minus the configured offset
     and floored at zero - and ends at the next Erase-Displayed-Memory or End-Of-Caption code. A gap shorter than five
     frames before the next caption is closed, and a final caption that is never cleared lasts four seconds. Captions
     come out in transmission order with start <= end, and a displayed duration under 0.05 s is rejected with a timing
-    error instead of being returned." *)
+    error instead of being returned."
+   Three points the statement leaves open are decided as the code does (design/C06.md, "decisions"): a zero duration is
+   not a flash (flash requires 0 < d), an EOC with nothing loaded clears the screen, a negative gap is closed like a short
+   one. *)
 From Coq Require Import List ZArith QArith Qabs Bool.
 From PV Require Import lib.Sx lib.Str lib.Result.
 Import ListNotations.
@@ -87,7 +90,7 @@ Fixpoint screens (l : list (Q * Q)) : list (Q * Q) :=
 
 Definition res_close (e o : result (list (Q * Q))) : bool :=
   match e, o with
-  | Ok a, Ok b => list_close a (screens b)
+  | Ok a, Ok b => list_close (screens a) (screens b)      (* runs of identical spans form one screen, on both sides *)
   | Err x, Err y => err_code x =? err_code y
   | _, _ => false
   end.
